@@ -150,3 +150,49 @@ def single_char_tests(fn):
                (l2.lhs.const_value() == 1 or l2.rhs.const_value() == 1):
                 out.append((cv, (s, k)))
     return out
+
+
+def errno_reset_before(fn, call):
+    """(ok, why): a store `errno = 0` dominates the strto* call and no other call that may set
+    errno lies between them."""
+    cfg = fn.cfg
+    resets = []
+    for lhs, rhs, st, kind in query.stores(fn):
+        if kind == "=" and "__errno_location" in render(lhs) and rhs is not None and rhs.const_value() == 0:
+            resets.append(st)
+    pos = cfg.index_of(call)
+    best = None
+    for st in resets:
+        if cfg.node_dominates(st, call):
+            best = st
+    if best is None:
+        return False, "errno is not cleared before the conversion: a stale errno left by an earlier call decides the error test"
+    # no call between the reset and the conversion (same block region check)
+    pb = cfg.index_of(best)
+    between = []
+    if pb[0] == pos[0]:
+        for n in cfg.blocks[pb[0]].elems[pb[1] + 1:pos[1]]:
+            if n.k == "CallExpr" and n.j.get("callee") not in ("__errno_location",) and n is not call and not n.within(call):
+                between.append(n)
+    else:
+        region = cfg.reachable(pb[0]) & cfg.reachable(pos[0], forward=False)
+        for b in region:
+            for k, n in enumerate(cfg.blocks[b].elems):
+                if b == pb[0] and k <= pb[1]:
+                    continue
+                if b == pos[0] and k >= pos[1]:
+                    continue
+                if n.k == "CallExpr" and n.j.get("callee") not in ("__errno_location", "__ctype_b_loc") and n is not call and not n.within(call):
+                    between.append(n)
+    between = [n for n in between if n.j.get("callee") not in ("__ctype_b_loc",)]
+    if between:
+        return False, "%s() is called between `errno = 0` and the conversion and may set errno" % between[0].j.get("callee")
+    return True, "errno = 0 at %s dominates the conversion" % best.where
+
+
+def uses_errno(fn):
+    for (b, i, s) in fn.cfg.edges():
+        lit = fn.cfg.edge_lit(b, i)
+        if lit is not None and "__errno_location" in lit.atom:
+            return True
+    return False
